@@ -1,0 +1,1302 @@
+//! Verification harness for property C07 (test-only; see /verif): rollup data is complete,
+//! ordered and provable from block to rollup.
+//!
+//! Extends the scripted app driver of `app/verif.rs` (all its ops are delegated) with:
+//!
+//! * `c07block <txid>...` finalizes and commits a block containing exactly the given transactions
+//!   (like `block`), and records -- computed from the SCRIPT, not from the block -- what every
+//!   rollup must receive: the payloads of the rollup data submissions of the successful txs in
+//!   block order, then the deposits of its bridge accounts.  Prints one `txres` line per id,
+//!   `block height=<h>` and `c07 blockdata ...` (the inputs of the model).
+//! * `c07 full h=<H>` reads the block through the gRPC service function `get_sequencer_block`,
+//!   encodes the response to protobuf bytes, decodes with `SequencerBlock::try_from_raw`.
+//! * `c07 filt h=<H> ids=<r,..|->` the same through `get_filtered_sequencer_block` and
+//!   `FilteredSequencerBlock::try_from_raw`.
+//! * `c07 cel h=<H>` `split_for_celestia`, protobuf round trip of the metadata and every rollup
+//!   blob, `SubmittedMetadata::try_from_raw` / `SubmittedRollupData::try_from_raw` and the
+//!   conductor's rollup blob audit (same calls on the public merkle API).
+//! * `c07 tamper <full|filt|cel> h=<H> [ids=..] <op> <args>` applies one tampering to the raw
+//!   protobuf of the served data and runs the receiver on the result.
+//!
+//! `<H>` is a height, `last` or `last-<k>`.  `dump=1` on a `cel` op also prints the raw bytes
+//! (`c07 celraw ...`) so that the real conductor code can be run on them.
+//!
+//! Run with:
+//! `cargo test --offline -p astria-sequencer --features verif --lib app::verif_c07::drive -- --exact`
+#![allow(
+    clippy::pedantic,
+    clippy::arithmetic_side_effects,
+    clippy::too_many_lines,
+    dead_code
+)]
+
+use std::{
+    collections::{
+        BTreeSet,
+        HashMap,
+    },
+    panic::AssertUnwindSafe,
+    sync::Arc,
+};
+
+use astria_core::{
+    generated::astria::{
+        primitive::v1 as rawp,
+        sequencerblock::v1::{
+            self as raw,
+            sequencer_service_server::SequencerService as _,
+        },
+    },
+    primitive::v1::{
+        asset::Denom,
+        RollupId,
+        TransactionId,
+        ADDRESS_LEN,
+    },
+    protocol::transaction::v1::Action,
+    sequencerblock::v1::{
+        block::{
+            Deposit,
+            FilteredSequencerBlock,
+            RollupData,
+        },
+        SequencerBlock,
+        SubmittedMetadata,
+        SubmittedRollupData,
+    },
+    upgrades::v1::Upgrades,
+};
+use bytes::Bytes;
+use futures::FutureExt as _;
+use prost::Message as _;
+use sha2::{
+    Digest as _,
+    Sha256,
+};
+
+use super::verif::{
+    classify,
+    debug_enabled,
+    error_chain,
+    parse_action,
+    parse_num,
+    report_chain,
+    Chain,
+    Harness,
+    KeyValues,
+    Names,
+    PResult,
+};
+use crate::{
+    checked_transaction::CheckedTransaction,
+    grpc::sequencer::SequencerServer,
+};
+
+// ---------------------------------------------------------------------------------------------
+// What the script says a block must contain
+// ---------------------------------------------------------------------------------------------
+
+struct TxInfo {
+    signer: usize,
+    actions: Vec<Action>,
+}
+
+#[derive(Clone)]
+struct BridgeInfo {
+    rollup_id: RollupId,
+    asset: Denom,
+}
+
+fn hex16(bytes: &[u8]) -> String {
+    hex::encode(bytes)[..16].to_string()
+}
+
+/// sha256 over the length-prefixed (u64 LE) items, first 16 hex characters.
+fn list_digest(items: &[Bytes]) -> String {
+    let mut hasher = Sha256::new();
+    for item in items {
+        hasher.update((item.len() as u64).to_le_bytes());
+        hasher.update(item);
+    }
+    hex16(&hasher.finalize())
+}
+
+fn show_id_bytes(names: &Names, bytes: &[u8]) -> String {
+    match <[u8; 32]>::try_from(bytes) {
+        Ok(array) => names.show_rollup(&RollupId::new(array)),
+        Err(_) => format!("x{}", hex::encode(bytes)),
+    }
+}
+
+fn join_or_dash(items: Vec<String>) -> String {
+    if items.is_empty() {
+        "-".to_string()
+    } else {
+        items.join(",")
+    }
+}
+
+// ---------------------------------------------------------------------------------------------
+// Served data in one shape (the fields C07 is about), read from / written back to the raw protobuf
+// ---------------------------------------------------------------------------------------------
+
+#[derive(Clone, PartialEq)]
+struct Ent {
+    id: Option<rawp::RollupId>,
+    txs: Vec<Bytes>,
+    proof: Option<rawp::Proof>,
+    /// Celestia rollup blob only: its own `sequencer_block_hash` field.
+    blob_hash: Bytes,
+}
+
+#[derive(Clone, PartialEq)]
+struct Bundle {
+    bh: Bytes,
+    rtr: Bytes,
+    dh: Bytes,
+    ents: Vec<Ent>,
+    rtp: Option<rawp::Proof>,
+    ids: Vec<rawp::RollupId>,
+    rip: Option<rawp::Proof>,
+}
+
+#[derive(Clone)]
+enum Served {
+    Full(raw::SequencerBlock),
+    Filt(raw::FilteredSequencerBlock),
+    Cel(raw::SubmittedMetadata, Vec<raw::SubmittedRollupData>),
+}
+
+fn header_roots(header: &Option<raw::SequencerBlockHeader>) -> (Bytes, Bytes) {
+    header
+        .as_ref()
+        .map(|header| (header.rollup_transactions_root.clone(), header.data_hash.clone()))
+        .unwrap_or_default()
+}
+
+fn set_header_roots(header: &mut Option<raw::SequencerBlockHeader>, rtr: &Bytes, dh: &Bytes) {
+    if let Some(header) = header.as_mut() {
+        header.rollup_transactions_root = rtr.clone();
+        header.data_hash = dh.clone();
+    }
+}
+
+impl Served {
+    fn bundle(&self) -> Bundle {
+        match self {
+            Served::Full(block) => {
+                let (rtr, dh) = header_roots(&block.header);
+                Bundle {
+                    bh: block.block_hash.clone(),
+                    rtr,
+                    dh,
+                    ents: block
+                        .rollup_transactions
+                        .iter()
+                        .map(|entry| Ent {
+                            id: entry.rollup_id.clone(),
+                            txs: entry.transactions.clone(),
+                            proof: entry.proof.clone(),
+                            blob_hash: Bytes::new(),
+                        })
+                        .collect(),
+                    rtp: block.rollup_transactions_proof.clone(),
+                    ids: vec![],
+                    rip: block.rollup_ids_proof.clone(),
+                }
+            }
+            Served::Filt(block) => {
+                let (rtr, dh) = header_roots(&block.header);
+                Bundle {
+                    bh: block.block_hash.clone(),
+                    rtr,
+                    dh,
+                    ents: block
+                        .rollup_transactions
+                        .iter()
+                        .map(|entry| Ent {
+                            id: entry.rollup_id.clone(),
+                            txs: entry.transactions.clone(),
+                            proof: entry.proof.clone(),
+                            blob_hash: Bytes::new(),
+                        })
+                        .collect(),
+                    rtp: block.rollup_transactions_proof.clone(),
+                    ids: block.all_rollup_ids.clone(),
+                    rip: block.rollup_ids_proof.clone(),
+                }
+            }
+            Served::Cel(meta, blobs) => {
+                let (rtr, dh) = header_roots(&meta.header);
+                Bundle {
+                    bh: meta.block_hash.clone(),
+                    rtr,
+                    dh,
+                    ents: blobs
+                        .iter()
+                        .map(|blob| Ent {
+                            id: blob.rollup_id.clone(),
+                            txs: blob.transactions.clone(),
+                            proof: blob.proof.clone(),
+                            blob_hash: blob.sequencer_block_hash.clone(),
+                        })
+                        .collect(),
+                    rtp: meta.rollup_transactions_proof.clone(),
+                    ids: meta.rollup_ids.clone(),
+                    rip: meta.rollup_ids_proof.clone(),
+                }
+            }
+        }
+    }
+
+    fn with_bundle(&self, bundle: &Bundle) -> Served {
+        let entries = || -> Vec<raw::RollupTransactions> {
+            bundle
+                .ents
+                .iter()
+                .map(|ent| raw::RollupTransactions {
+                    rollup_id: ent.id.clone(),
+                    transactions: ent.txs.clone(),
+                    proof: ent.proof.clone(),
+                })
+                .collect()
+        };
+        match self {
+            Served::Full(block) => {
+                let mut block = block.clone();
+                block.block_hash = bundle.bh.clone();
+                set_header_roots(&mut block.header, &bundle.rtr, &bundle.dh);
+                block.rollup_transactions = entries();
+                block.rollup_transactions_proof = bundle.rtp.clone();
+                block.rollup_ids_proof = bundle.rip.clone();
+                Served::Full(block)
+            }
+            Served::Filt(block) => {
+                let mut block = block.clone();
+                block.block_hash = bundle.bh.clone();
+                set_header_roots(&mut block.header, &bundle.rtr, &bundle.dh);
+                block.rollup_transactions = entries();
+                block.rollup_transactions_proof = bundle.rtp.clone();
+                block.all_rollup_ids = bundle.ids.clone();
+                block.rollup_ids_proof = bundle.rip.clone();
+                Served::Filt(block)
+            }
+            Served::Cel(meta, blobs) => {
+                let mut meta = meta.clone();
+                // blobs created by a tampering are published with the hash of the original blobs
+                let published_hash = blobs
+                    .first()
+                    .map(|blob| blob.sequencer_block_hash.clone())
+                    .unwrap_or_else(|| meta.block_hash.clone());
+                meta.block_hash = bundle.bh.clone();
+                set_header_roots(&mut meta.header, &bundle.rtr, &bundle.dh);
+                meta.rollup_ids = bundle.ids.clone();
+                meta.rollup_transactions_proof = bundle.rtp.clone();
+                meta.rollup_ids_proof = bundle.rip.clone();
+                let blobs = bundle
+                    .ents
+                    .iter()
+                    .map(|ent| raw::SubmittedRollupData {
+                        sequencer_block_hash: if ent.blob_hash.is_empty() {
+                            published_hash.clone()
+                        } else {
+                            ent.blob_hash.clone()
+                        },
+                        rollup_id: ent.id.clone(),
+                        transactions: ent.txs.clone(),
+                        proof: ent.proof.clone(),
+                    })
+                    .collect();
+                Served::Cel(meta, blobs)
+            }
+        }
+    }
+}
+
+fn flip_last(bytes: &Bytes) -> Bytes {
+    let mut vec = bytes.to_vec();
+    match vec.last_mut() {
+        Some(last) => *last ^= 1,
+        None => vec.push(1),
+    }
+    Bytes::from(vec)
+}
+
+fn rollup_id_raw(id: RollupId) -> rawp::RollupId {
+    rawp::RollupId {
+        inner: Bytes::copy_from_slice(id.as_bytes()),
+    }
+}
+
+/// Applies one tampering (tokens after the form / height / ids keys) to `bundle`.  Positions that
+/// do not exist leave the data unchanged (as in the model).
+fn tamper_bundle(names: &Names, bundle: &mut Bundle, tokens: &[&str]) -> PResult<()> {
+    let (op, args) = tokens
+        .split_first()
+        .ok_or_else(|| "missing tamper op".to_string())?;
+    let pos = |index: usize| -> PResult<usize> {
+        parse_num(args.get(index).ok_or_else(|| "missing position".to_string())?)
+    };
+    let val = |index: usize| -> PResult<u64> {
+        parse_num(args.get(index).ok_or_else(|| "missing value".to_string())?)
+    };
+    let with_proof = |proof: &mut Option<rawp::Proof>, f: &dyn Fn(&mut rawp::Proof)| {
+        if let Some(proof) = proof.as_mut() {
+            f(proof);
+        }
+    };
+    match *op {
+        "alter" => {
+            let (j, k) = (pos(0)?, pos(1)?);
+            if let Some(tx) = bundle.ents.get_mut(j).and_then(|ent| ent.txs.get_mut(k)) {
+                *tx = flip_last(tx);
+            }
+        }
+        "swap" => {
+            let (j, k) = (pos(0)?, pos(1)?);
+            if let Some(ent) = bundle.ents.get_mut(j) {
+                if k + 1 < ent.txs.len() {
+                    ent.txs.swap(k, k + 1);
+                }
+            }
+        }
+        "drop" => {
+            let (j, k) = (pos(0)?, pos(1)?);
+            if let Some(ent) = bundle.ents.get_mut(j) {
+                if k < ent.txs.len() {
+                    ent.txs.remove(k);
+                }
+            }
+        }
+        "dup" => {
+            let (j, k) = (pos(0)?, pos(1)?);
+            if let Some(ent) = bundle.ents.get_mut(j) {
+                if k < ent.txs.len() {
+                    let copy = ent.txs[k].clone();
+                    ent.txs.insert(k + 1, copy);
+                }
+            }
+        }
+        "app" => {
+            let j = pos(0)?;
+            let item = hex::decode(args.get(1).ok_or_else(|| "missing item".to_string())?)
+                .map_err(|e| e.to_string())?;
+            if let Some(ent) = bundle.ents.get_mut(j) {
+                ent.txs.push(Bytes::from(item));
+            }
+        }
+        "reid" => {
+            let j = pos(0)?;
+            let id = names.rollup(args.get(1).ok_or_else(|| "missing rollup".to_string())?)?;
+            if let Some(ent) = bundle.ents.get_mut(j) {
+                ent.id = Some(rollup_id_raw(id));
+            }
+        }
+        "mvdata" => {
+            let (j, j2) = (pos(0)?, pos(1)?);
+            if let Some(source) = bundle.ents.get(j2).map(|ent| ent.txs.clone()) {
+                if let Some(ent) = bundle.ents.get_mut(j) {
+                    ent.txs = source;
+                }
+            }
+        }
+        "swapproof" => {
+            let (j, j2) = (pos(0)?, pos(1)?);
+            if j < bundle.ents.len() && j2 < bundle.ents.len() {
+                let first = bundle.ents[j].proof.clone();
+                let second = bundle.ents[j2].proof.clone();
+                bundle.ents[j].proof = second;
+                bundle.ents[j2].proof = first;
+            }
+        }
+        "pidx" => {
+            let (j, value) = (pos(0)?, val(1)?);
+            if let Some(ent) = bundle.ents.get_mut(j) {
+                with_proof(&mut ent.proof, &|proof| proof.leaf_index = value);
+            }
+        }
+        "psize" => {
+            let (j, value) = (pos(0)?, val(1)?);
+            if let Some(ent) = bundle.ents.get_mut(j) {
+                with_proof(&mut ent.proof, &|proof| proof.tree_size = value);
+            }
+        }
+        "ppath" => {
+            let (j, k) = (pos(0)?, pos(1)?);
+            if let Some(ent) = bundle.ents.get_mut(j) {
+                with_proof(&mut ent.proof, &|proof| {
+                    let mut path = proof.audit_path.to_vec();
+                    if let Some(byte) = path.get_mut(32 * k + 31) {
+                        *byte ^= 1;
+                    }
+                    proof.audit_path = Bytes::from(path);
+                });
+            }
+        }
+        "ppathdrop" => {
+            let j = pos(0)?;
+            if let Some(ent) = bundle.ents.get_mut(j) {
+                with_proof(&mut ent.proof, &|proof| {
+                    let len = proof.audit_path.len();
+                    if len >= 32 {
+                        proof.audit_path = proof.audit_path.slice(..len - 32);
+                    }
+                });
+            }
+        }
+        "rmentry" => {
+            let j = pos(0)?;
+            if j < bundle.ents.len() {
+                bundle.ents.remove(j);
+            }
+        }
+        "dupentry" => {
+            let j = pos(0)?;
+            if let Some(ent) = bundle.ents.get(j).cloned() {
+                bundle.ents.push(ent);
+            }
+        }
+        "swapentry" => {
+            let (j, j2) = (pos(0)?, pos(1)?);
+            if j < bundle.ents.len() && j2 < bundle.ents.len() {
+                bundle.ents.swap(j, j2);
+            }
+        }
+        "rtr" => bundle.rtr = flip_last(&bundle.rtr),
+        "dh" => bundle.dh = flip_last(&bundle.dh),
+        "bh" => bundle.bh = flip_last(&bundle.bh),
+        "idsdrop" => {
+            let k = pos(0)?;
+            if k < bundle.ids.len() {
+                bundle.ids.remove(k);
+            }
+        }
+        "idsadd" => {
+            let id = names.rollup(args.first().ok_or_else(|| "missing rollup".to_string())?)?;
+            bundle.ids.push(rollup_id_raw(id));
+        }
+        "idsswap" => {
+            let k = pos(0)?;
+            if k + 1 < bundle.ids.len() {
+                bundle.ids.swap(k, k + 1);
+            }
+        }
+        "rtpidx" => {
+            let value = val(0)?;
+            with_proof(&mut bundle.rtp, &|proof| proof.leaf_index = value);
+        }
+        "rtpsize" => {
+            let value = val(0)?;
+            with_proof(&mut bundle.rtp, &|proof| proof.tree_size = value);
+        }
+        "ripidx" => {
+            let value = val(0)?;
+            with_proof(&mut bundle.rip, &|proof| proof.leaf_index = value);
+        }
+        "ripsize" => {
+            let value = val(0)?;
+            with_proof(&mut bundle.rip, &|proof| proof.tree_size = value);
+        }
+        "swaprtprip" => std::mem::swap(&mut bundle.rtp, &mut bundle.rip),
+        other => return Err(format!("unknown tamper op `{other}`")),
+    }
+    Ok(())
+}
+
+// ---------------------------------------------------------------------------------------------
+// Receivers
+// ---------------------------------------------------------------------------------------------
+
+fn show_proof(proof: &merkle::Proof) -> String {
+    format!(
+        "{}/{}/{}",
+        proof.leaf_index(),
+        proof.tree_size(),
+        hex16(&Sha256::digest(proof.audit_path()))
+    )
+}
+
+fn show_raw_proof(proof: &Option<rawp::Proof>) -> String {
+    match proof {
+        Some(proof) => format!(
+            "{}/{}/{}",
+            proof.leaf_index,
+            proof.tree_size,
+            hex16(&Sha256::digest(&proof.audit_path))
+        ),
+        None => "-".to_string(),
+    }
+}
+
+/// The per-rollup inclusion check a client can do with the public merkle API: leaf =
+/// rollup id || root of the tree over the data items.
+fn rollup_proof_verifies(
+    proof: &merkle::Proof,
+    rollup_id: &RollupId,
+    transactions: &[Bytes],
+    root: [u8; 32],
+) -> bool {
+    proof
+        .audit()
+        .with_root(root)
+        .with_leaf_builder()
+        .write(rollup_id.as_bytes())
+        .write(&merkle::Tree::from_leaves(transactions).root())
+        .finish_leaf()
+        .perform()
+}
+
+fn data_summary<'a>(
+    names: &Names,
+    entries: impl Iterator<Item = (&'a RollupId, &'a [Bytes])>,
+) -> String {
+    join_or_dash(
+        entries
+            .map(|(id, txs)| {
+                format!("{}:{}:{}", names.show_rollup(id), txs.len(), list_digest(txs))
+            })
+            .collect(),
+    )
+}
+
+/// Runs the receiver of the form on the protobuf bytes of `served`; returns the observation
+/// (`recv=ok data=.. [all=..]` | `recv=err`) and extra detail lines.
+fn receive(names: &Names, served: &Served, detail: bool) -> (String, Vec<String>) {
+    let mut lines = vec![];
+    match served {
+        Served::Full(block) => {
+            let bytes = block.encode_to_vec();
+            let Ok(decoded) = raw::SequencerBlock::decode(bytes.as_slice()) else {
+                return ("recv=err".to_string(), lines);
+            };
+            match SequencerBlock::try_from_raw(decoded) {
+                Ok(block) => {
+                    let root = *block.header().rollup_transactions_root();
+                    if detail {
+                        for (position, (id, entry)) in block.rollup_transactions().iter().enumerate()
+                        {
+                            lines.push(format!(
+                                "e{position} id={} n={} dig={} proof={} ok={}",
+                                names.show_rollup(id),
+                                entry.transactions().len(),
+                                list_digest(entry.transactions()),
+                                show_proof(entry.proof()),
+                                rollup_proof_verifies(
+                                    entry.proof(),
+                                    id,
+                                    entry.transactions(),
+                                    root
+                                ),
+                            ));
+                        }
+                    }
+                    let data = data_summary(
+                        names,
+                        block
+                            .rollup_transactions()
+                            .iter()
+                            .map(|(id, entry)| (id, entry.transactions())),
+                    );
+                    (format!("recv=ok data={data}"), lines)
+                }
+                Err(error) => {
+                    if debug_enabled() {
+                        eprintln!("[verif c07] full rejected: {}", error_chain(&error));
+                    }
+                    ("recv=err".to_string(), lines)
+                }
+            }
+        }
+        Served::Filt(block) => {
+            let bytes = block.encode_to_vec();
+            let Ok(decoded) = raw::FilteredSequencerBlock::decode(bytes.as_slice()) else {
+                return ("recv=err".to_string(), lines);
+            };
+            match FilteredSequencerBlock::try_from_raw(decoded) {
+                Ok(block) => {
+                    let root = *block.rollup_transactions_root();
+                    if detail {
+                        for (position, (id, entry)) in block.rollup_transactions().iter().enumerate()
+                        {
+                            lines.push(format!(
+                                "e{position} id={} n={} dig={} proof={} ok={}",
+                                names.show_rollup(id),
+                                entry.transactions().len(),
+                                list_digest(entry.transactions()),
+                                show_proof(entry.proof()),
+                                rollup_proof_verifies(
+                                    entry.proof(),
+                                    id,
+                                    entry.transactions(),
+                                    root
+                                ),
+                            ));
+                        }
+                    }
+                    let data = data_summary(
+                        names,
+                        block
+                            .rollup_transactions()
+                            .iter()
+                            .map(|(id, entry)| (id, entry.transactions())),
+                    );
+                    let all = join_or_dash(
+                        block
+                            .all_rollup_ids()
+                            .iter()
+                            .map(|id| names.show_rollup(id))
+                            .collect(),
+                    );
+                    (format!("recv=ok data={data} all={all}"), lines)
+                }
+                Err(error) => {
+                    if debug_enabled() {
+                        eprintln!("[verif c07] filtered rejected: {}", error_chain(&error));
+                    }
+                    ("recv=err".to_string(), lines)
+                }
+            }
+        }
+        Served::Cel(meta, blobs) => {
+            let meta_bytes = meta.encode_to_vec();
+            let decoded_meta = raw::SubmittedMetadata::decode(meta_bytes.as_slice())
+                .ok()
+                .and_then(|raw_meta| match SubmittedMetadata::try_from_raw(raw_meta) {
+                    Ok(meta) => Some(meta),
+                    Err(error) => {
+                        if debug_enabled() {
+                            eprintln!("[verif c07] metadata rejected: {}", error_chain(&error));
+                        }
+                        None
+                    }
+                });
+            let mut verdicts = vec![];
+            let mut accepted: Vec<(RollupId, Vec<Bytes>)> = vec![];
+            for (position, blob) in blobs.iter().enumerate() {
+                let blob_bytes = blob.encode_to_vec();
+                let decoded_blob = raw::SubmittedRollupData::decode(blob_bytes.as_slice())
+                    .ok()
+                    .and_then(|raw_blob| SubmittedRollupData::try_from_raw(raw_blob).ok());
+                let verdict = match (&decoded_meta, &decoded_blob) {
+                    (_, None) => "derr",
+                    (None, Some(_)) => "-",
+                    (Some(meta), Some(blob)) => {
+                        // conductor: match by block hash, then audit against the metadata's root
+                        let same_block = meta.block_hash() == blob.sequencer_block_hash();
+                        let audit = rollup_proof_verifies(
+                            blob.proof(),
+                            &blob.rollup_id(),
+                            blob.transactions(),
+                            *meta.rollup_transactions_root(),
+                        );
+                        if detail {
+                            lines.push(format!(
+                                "e{position} id={} n={} dig={} proof={} ok={}",
+                                names.show_rollup(&blob.rollup_id()),
+                                blob.transactions().len(),
+                                list_digest(blob.transactions()),
+                                show_proof(blob.proof()),
+                                audit,
+                            ));
+                        }
+                        if audit && same_block {
+                            accepted.push((blob.rollup_id(), blob.transactions().to_vec()));
+                            "ok"
+                        } else if audit {
+                            "otherblock"
+                        } else {
+                            "bad"
+                        }
+                    }
+                };
+                verdicts.push(verdict.to_string());
+            }
+            let blobs_verdict = join_or_dash(verdicts);
+            match decoded_meta {
+                Some(meta) => {
+                    let data = data_summary(
+                        names,
+                        accepted.iter().map(|(id, txs)| (id, txs.as_slice())),
+                    );
+                    let all = join_or_dash(
+                        meta.rollup_ids().map(|id| names.show_rollup(id)).collect(),
+                    );
+                    (
+                        format!("recv=ok blobs={blobs_verdict} data={data} all={all}"),
+                        lines,
+                    )
+                }
+                None => (format!("recv=err blobs={blobs_verdict}"), lines),
+            }
+        }
+    }
+}
+
+fn celraw_line(served: &Served) -> Option<String> {
+    let Served::Cel(meta, blobs) = served else {
+        return None;
+    };
+    Some(format!(
+        "meta={} blobs={}",
+        hex::encode(meta.encode_to_vec()),
+        join_or_dash(
+            blobs
+                .iter()
+                .map(|blob| hex::encode(blob.encode_to_vec()))
+                .collect()
+        )
+    ))
+}
+
+// ---------------------------------------------------------------------------------------------
+// The driver
+// ---------------------------------------------------------------------------------------------
+
+struct C07 {
+    harness: Harness,
+    txs: HashMap<String, TxInfo>,
+    bridges: HashMap<[u8; ADDRESS_LEN], BridgeInfo>,
+    /// heights finalized through `c07block`
+    recorded: BTreeSet<u64>,
+}
+
+impl C07 {
+    fn new() -> Self {
+        Self {
+            harness: Harness::new(),
+            txs: HashMap::new(),
+            bridges: HashMap::new(),
+            recorded: BTreeSet::new(),
+        }
+    }
+
+    async fn run_line(&mut self, line: &str) {
+        let tokens: Vec<&str> = line.split_whitespace().collect();
+        let Some((&op, args)) = tokens.split_first() else {
+            return;
+        };
+        match op {
+            "case" => {
+                self.bridges.clear();
+                self.recorded.clear();
+                self.harness.run_line(line).await;
+            }
+            "tx" => {
+                self.harness.run_line(line).await;
+                self.remember_tx(args);
+            }
+            "c07block" | "c07" => {
+                let mark = self.harness.out.len();
+                let result = AssertUnwindSafe(self.run_c07(op, args)).catch_unwind().await;
+                match result {
+                    Ok(Ok(())) => {}
+                    Ok(Err(message)) => {
+                        if debug_enabled() {
+                            eprintln!("[verif c07] parse error in `{line}`: {message}");
+                        }
+                        self.harness.out.truncate(mark);
+                        self.harness.emit(format!("{op} parseerr"));
+                    }
+                    Err(_) => {
+                        self.harness.out.truncate(mark);
+                        self.harness.emit(format!("{op} panic"));
+                        if let Some(chain) = self.harness.chain.as_mut() {
+                            let _ = std::panic::catch_unwind(AssertUnwindSafe(|| chain.reset_round()));
+                        }
+                    }
+                }
+            }
+            _ => self.harness.run_line(line).await,
+        }
+    }
+
+    /// Keeps the parsed actions of a `tx` line (the harness keeps only the signed bytes).
+    fn remember_tx(&mut self, args: &[&str]) {
+        let [id, signer, _nonce, action_tokens @ ..] = args else {
+            return;
+        };
+        self.txs.remove(*id);
+        if !self.harness.txs.contains_key(*id) {
+            return;
+        }
+        let Ok(signer) = self.harness.names.account_index(signer) else {
+            return;
+        };
+        let mut actions = Vec::new();
+        let mut scratch = BTreeSet::new();
+        for tokens in action_tokens.split(|token| *token == ";") {
+            if tokens.is_empty() {
+                continue;
+            }
+            match parse_action(&self.harness.names, tokens, &mut scratch) {
+                Ok(action) => actions.push(action),
+                Err(_) => return,
+            }
+        }
+        self.txs.insert(
+            (*id).to_string(),
+            TxInfo {
+                signer,
+                actions,
+            },
+        );
+    }
+
+    async fn run_c07(&mut self, op: &str, args: &[&str]) -> PResult<()> {
+        if op == "c07block" {
+            return self.op_block(args).await;
+        }
+        let (form, rest) = args
+            .split_first()
+            .ok_or_else(|| "usage: c07 <full|filt|cel|tamper> ...".to_string())?;
+        match *form {
+            "full" | "filt" | "cel" => self.op_serve(form, rest, None).await,
+            "tamper" => {
+                let (form, rest) = rest
+                    .split_first()
+                    .ok_or_else(|| "usage: c07 tamper <form> ...".to_string())?;
+                // key=value tokens first, then the tamper op and its arguments
+                let split = rest
+                    .iter()
+                    .position(|token| !token.contains('='))
+                    .ok_or_else(|| "missing tamper op".to_string())?;
+                self.op_serve(form, &rest[..split], Some(&rest[split..])).await
+            }
+            other => Err(format!("unknown c07 op `{other}`")),
+        }
+    }
+
+    // -- block -----------------------------------------------------------------------------------
+
+    async fn op_block(&mut self, args: &[&str]) -> PResult<()> {
+        let names = &self.harness.names;
+        let chain = self
+            .harness
+            .chain
+            .as_mut()
+            .ok_or_else(|| "no chain (missing `genesis`)".to_string())?;
+        chain.reset_round();
+        let height = chain.stored_height().await + 1;
+
+        let mut lines: Vec<String> = vec![String::new(); args.len()];
+        let mut included: Vec<(usize, &str, Arc<CheckedTransaction>)> = Vec::new();
+        for (position, id) in args.iter().enumerate() {
+            let Some(bytes) = self.harness.txs.get(*id) else {
+                lines[position] = format!("txres {id} unknown");
+                continue;
+            };
+            match CheckedTransaction::new(bytes.clone(), chain.app.state()).await {
+                Ok(tx) => included.push((position, *id, Arc::new(tx))),
+                Err(error) => {
+                    let class = classify("c07block construct", &error_chain(&error));
+                    lines[position] = format!("txres {id} constructerr={class}");
+                }
+            }
+        }
+        let checked: Vec<Arc<CheckedTransaction>> =
+            included.iter().map(|(_, _, tx)| tx.clone()).collect();
+        let (dry_run_errors, deposits) = chain.dry_run(names, height, &checked).await;
+        let committed: Vec<Arc<CheckedTransaction>> = checked
+            .iter()
+            .zip(&dry_run_errors)
+            .filter(|(_, error)| error.is_none())
+            .map(|(tx, _)| tx.clone())
+            .collect();
+        let data = chain
+            .block_data(height, &checked, &committed, deposits)
+            .await;
+        let request = Chain::finalize_request(names, height, data.clone());
+        let block_hash = match request.hash {
+            tendermint::Hash::Sha256(hash) => hash,
+            tendermint::Hash::None => [0; 32],
+        };
+        let emit_lines = |out: &mut String, lines: &[String]| {
+            for line in lines.iter().filter(|line| !line.is_empty()) {
+                out.push_str(line);
+                out.push('\n');
+            }
+        };
+        for (index, (position, id, _)) in included.iter().enumerate() {
+            lines[*position] = match dry_run_errors.get(index) {
+                Some(Some(text)) => {
+                    format!("txres {id} dropped={}", classify("c07block dropped", text))
+                }
+                _ => format!("txres {id} ok"),
+            };
+        }
+        if let Err(error) = chain
+            .app
+            .finalize_block(request, chain.storage.clone())
+            .await
+        {
+            let class = classify("c07block finalize", &report_chain(&error));
+            chain.reset_round();
+            emit_lines(&mut self.harness.out, &lines);
+            self.harness.out.push_str(&format!("block err={class}\n"));
+            return Ok(());
+        }
+        if let Err(error) = chain.app.commit(chain.storage.clone()).await {
+            let _ = classify("c07block commit", &report_chain(&error));
+            emit_lines(&mut self.harness.out, &lines);
+            self.harness.out.push_str("block err=commit\n");
+            return Ok(());
+        }
+        emit_lines(&mut self.harness.out, &lines);
+
+        // What the block must contain according to the script: for every successful tx in block
+        // order its rollup data submissions; then the deposits of its bridge locks / transfers.
+        let mut subs: Vec<String> = vec![];
+        let mut deps: Vec<String> = vec![];
+        let mut new_bridges: Vec<([u8; ADDRESS_LEN], BridgeInfo)> = vec![];
+        let mut supported = true;
+        for (index, (_, id, _)) in included.iter().enumerate() {
+            if !matches!(dry_run_errors.get(index), Some(None)) {
+                continue;
+            }
+            let (Some(info), Some(bytes)) = (self.txs.get(*id), self.harness.txs.get(*id)) else {
+                supported = false;
+                continue;
+            };
+            let tx_id = TransactionId::new(Sha256::digest(bytes).into());
+            for (action_index, action) in info.actions.iter().enumerate() {
+                match action {
+                    Action::RollupDataSubmission(submission) => subs.push(format!(
+                        "{}:{}",
+                        names.show_rollup(&submission.rollup_id),
+                        if submission.data.is_empty() {
+                            "e".to_string()
+                        } else {
+                            hex::encode(&submission.data)
+                        }
+                    )),
+                    Action::BridgeLock(lock) => {
+                        let Some(bridge) = self.bridges.get(lock.to.as_bytes()) else {
+                            supported = false;
+                            continue;
+                        };
+                        let Denom::TracePrefixed(_) = &lock.asset else {
+                            supported = false;
+                            continue;
+                        };
+                        let deposit = Deposit {
+                            bridge_address: lock.to,
+                            rollup_id: bridge.rollup_id,
+                            amount: lock.amount,
+                            asset: lock.asset.clone(),
+                            destination_chain_address: lock.destination_chain_address.clone(),
+                            source_transaction_id: tx_id,
+                            source_action_index: action_index as u64,
+                        };
+                        deps.push(format!(
+                            "{}:{}",
+                            names.show_rollup(&bridge.rollup_id),
+                            hex::encode(
+                                RollupData::Deposit(Box::new(deposit))
+                                    .into_raw()
+                                    .encode_to_vec()
+                            )
+                        ));
+                    }
+                    Action::BridgeTransfer(transfer) => {
+                        let (Some(from), Some(to)) = (
+                            self.bridges.get(transfer.bridge_address.as_bytes()),
+                            self.bridges.get(transfer.to.as_bytes()),
+                        ) else {
+                            supported = false;
+                            continue;
+                        };
+                        let deposit = Deposit {
+                            bridge_address: transfer.to,
+                            rollup_id: to.rollup_id,
+                            amount: transfer.amount,
+                            asset: from.asset.clone(),
+                            destination_chain_address: transfer.destination_chain_address.clone(),
+                            source_transaction_id: tx_id,
+                            source_action_index: action_index as u64,
+                        };
+                        deps.push(format!(
+                            "{}:{}",
+                            names.show_rollup(&to.rollup_id),
+                            hex::encode(
+                                RollupData::Deposit(Box::new(deposit))
+                                    .into_raw()
+                                    .encode_to_vec()
+                            )
+                        ));
+                    }
+                    Action::InitBridgeAccount(init) => new_bridges.push((
+                        *names.addresses[info.signer].as_bytes(),
+                        BridgeInfo {
+                            rollup_id: init.rollup_id,
+                            asset: init.asset.clone(),
+                        },
+                    )),
+                    _ => {}
+                }
+            }
+        }
+        for (address, info) in new_bridges {
+            self.bridges.insert(address, info);
+        }
+
+        // the data items after the two commitments: kind and sha256
+        let user_tx_count = checked.len();
+        // (the leaf of the extended commit info is the digest of the info bytes inside the item)
+        let mut rest: Vec<String> = vec![];
+        let mut items: Vec<String> = vec![];
+        for (index, item) in data.iter().enumerate().skip(2) {
+            let mut leaf = hex::encode(Sha256::digest(item));
+            let kind = if index + user_tx_count >= data.len() {
+                't'
+            } else {
+                match raw::DataItem::decode(item.as_ref()).ok().and_then(|item| item.value) {
+                    Some(raw::data_item::Value::UpgradeChangeHashes(_)) => 'u',
+                    Some(raw::data_item::Value::ExtendedCommitInfo(info)) => {
+                        leaf = hex::encode(Sha256::digest(&info));
+                        'e'
+                    }
+                    _ => '?',
+                }
+            };
+            rest.push(format!("{kind}:{leaf}"));
+            items.push(hex::encode(Sha256::digest(item)));
+        }
+        let item_hash = |index: usize| -> String {
+            data.get(index)
+                .map(|item| hex::encode(Sha256::digest(item)))
+                .unwrap_or_else(|| "-".to_string())
+        };
+        self.recorded.insert(height);
+        let out = &mut self.harness.out;
+        out.push_str(&format!(
+            "block height={height} n={} ok={}\n",
+            included.len(),
+            committed.len()
+        ));
+        out.push_str(&format!(
+            "c07 blockdata h={height} supported={supported} bh={} subs={} deps={} rest={} d0={} \
+             d1={} items={}\n",
+            hex::encode(block_hash),
+            join_or_dash(subs),
+            join_or_dash(deps),
+            join_or_dash(rest),
+            item_hash(0),
+            item_hash(1),
+            join_or_dash(items),
+        ));
+        Ok(())
+    }
+
+    // -- serving ---------------------------------------------------------------------------------
+
+    async fn resolve_height(&mut self, token: &str) -> PResult<u64> {
+        let chain = self.harness.chain()?;
+        let last = chain.stored_height().await;
+        if token == "last" {
+            return Ok(last);
+        }
+        if let Some(back) = token.strip_prefix("last-") {
+            let back: u64 = parse_num(back)?;
+            return last
+                .checked_sub(back)
+                .ok_or_else(|| "height below zero".to_string());
+        }
+        parse_num(token)
+    }
+
+    /// Reads the block at `height` the way a client of the form does.
+    async fn serve(&mut self, form: &str, height: u64, ids: &[RollupId]) -> Result<Served, String> {
+        let chain = self.harness.chain()?;
+        let server = Arc::new(SequencerServer::new(
+            chain.storage.clone(),
+            chain.app.mempool.clone(),
+            Upgrades::default(),
+        ));
+        match form {
+            "full" | "cel" => {
+                let response = server
+                    .get_sequencer_block(tonic::Request::new(raw::GetSequencerBlockRequest {
+                        height,
+                    }))
+                    .await
+                    .map_err(|status| format!("grpc:{:?}", status.code()))?;
+                let bytes = response.into_inner().encode_to_vec();
+                let raw_block = raw::SequencerBlock::decode(bytes.as_slice())
+                    .map_err(|_| "wire".to_string())?;
+                if form == "full" {
+                    return Ok(Served::Full(raw_block));
+                }
+                // the relayer: decode, split, encode each part
+                let block = SequencerBlock::try_from_raw(raw_block)
+                    .map_err(|error| format!("relayer-decode:{}", error_chain(&error)))?;
+                let (meta, blobs) = block.split_for_celestia();
+                let meta_bytes = meta.into_raw().encode_to_vec();
+                let raw_meta = raw::SubmittedMetadata::decode(meta_bytes.as_slice())
+                    .map_err(|_| "wire".to_string())?;
+                let mut raw_blobs = vec![];
+                for blob in blobs {
+                    let blob_bytes = blob.into_raw().encode_to_vec();
+                    raw_blobs.push(
+                        raw::SubmittedRollupData::decode(blob_bytes.as_slice())
+                            .map_err(|_| "wire".to_string())?,
+                    );
+                }
+                Ok(Served::Cel(raw_meta, raw_blobs))
+            }
+            "filt" => {
+                let response = server
+                    .get_filtered_sequencer_block(tonic::Request::new(
+                        raw::GetFilteredSequencerBlockRequest {
+                            height,
+                            rollup_ids: ids.iter().copied().map(rollup_id_raw).collect(),
+                        },
+                    ))
+                    .await
+                    .map_err(|status| format!("grpc:{:?}", status.code()))?;
+                let bytes = response.into_inner().encode_to_vec();
+                raw::FilteredSequencerBlock::decode(bytes.as_slice())
+                    .map(Served::Filt)
+                    .map_err(|_| "wire".to_string())
+            }
+            other => Err(format!("unknown form `{other}`")),
+        }
+    }
+
+    async fn op_serve(
+        &mut self,
+        form: &str,
+        key_values: &[&str],
+        tamper: Option<&[&str]>,
+    ) -> PResult<()> {
+        let kv = KeyValues::parse("c07", key_values)?;
+        let height = self.resolve_height(kv.req("h")?).await?;
+        let ids: Vec<RollupId> = match kv.opt("ids") {
+            None | Some("-") | Some("") => vec![],
+            Some(list) => list
+                .split(',')
+                .map(|token| self.harness.names.rollup(token))
+                .collect::<PResult<_>>()?,
+        };
+        let dump = kv.opt("dump") == Some("1");
+        let ids_text = if form == "filt" {
+            format!(" ids={}", kv.opt("ids").unwrap_or("-"))
+        } else {
+            String::new()
+        };
+        let label = match tamper {
+            Some(tokens) => format!("c07 tamper {form} h={height}{ids_text} {}", tokens.join(" ")),
+            None => format!("c07 {form} h={height}{ids_text}"),
+        };
+        let served = match self.serve(form, height, &ids).await {
+            Ok(served) => served,
+            Err(reason) => {
+                if debug_enabled() {
+                    eprintln!("[verif c07] serve failed: {reason}");
+                }
+                let class = reason.split(':').next().unwrap_or("other").to_string();
+                self.harness.emit(format!("{label} serve=err:{class}"));
+                return Ok(());
+            }
+        };
+        let names = &self.harness.names;
+        let honest = served.bundle();
+        match tamper {
+            None => {
+                let (verdict, detail) = receive(names, &served, true);
+                let ids_line = match &served {
+                    Served::Full(_) => String::new(),
+                    _ => format!(
+                        " all={}",
+                        join_or_dash(
+                            honest
+                                .ids
+                                .iter()
+                                .map(|id| show_id_bytes(names, &id.inner))
+                                .collect()
+                        )
+                    ),
+                };
+                let mut lines = vec![format!(
+                    "{label} {verdict} bh={} rtr={} dh={} rtp={} rip={} raw={}{ids_line}",
+                    hex::encode(&honest.bh),
+                    hex::encode(&honest.rtr),
+                    hex::encode(&honest.dh),
+                    show_raw_proof(&honest.rtp),
+                    show_raw_proof(&honest.rip),
+                    join_or_dash(
+                        honest
+                            .ents
+                            .iter()
+                            .map(|ent| format!(
+                                "{}:{}:{}",
+                                ent.id
+                                    .as_ref()
+                                    .map(|id| show_id_bytes(names, &id.inner))
+                                    .unwrap_or_else(|| "-".to_string()),
+                                ent.txs.len(),
+                                list_digest(&ent.txs)
+                            ))
+                            .collect()
+                    ),
+                )];
+                for line in detail {
+                    lines.push(format!("{label} {line}"));
+                }
+                if dump {
+                    if let Some(raw_line) = celraw_line(&served) {
+                        lines.push(format!("c07 celraw h={height} {raw_line}"));
+                    }
+                }
+                for line in lines {
+                    self.harness.emit(line);
+                }
+            }
+            Some(tokens) => {
+                let mut bundle = honest.clone();
+                tamper_bundle(names, &mut bundle, tokens)?;
+                let changed = bundle != honest;
+                let tampered = served.with_bundle(&bundle);
+                let (verdict, _) = receive(names, &tampered, false);
+                let mut lines = vec![format!("{label} changed={changed} {verdict}")];
+                if dump {
+                    if let Some(raw_line) = celraw_line(&tampered) {
+                        lines.push(format!(
+                            "c07 celraw h={height} tamper={} {raw_line}",
+                            tokens.join("_")
+                        ));
+                    }
+                }
+                for line in lines {
+                    self.harness.emit(line);
+                }
+            }
+        }
+        Ok(())
+    }
+}
+
+#[tokio::test]
+async fn drive() {
+    let Ok(input_path) = std::env::var("VERIF_IN") else {
+        return;
+    };
+    let script = std::fs::read_to_string(&input_path).expect("VERIF_IN should be readable");
+    if debug_enabled() {
+        std::panic::set_hook(Box::new(|info| eprintln!("[verif c07] panic: {info}")));
+    } else {
+        std::panic::set_hook(Box::new(|_| {}));
+    }
+    let mut driver = C07::new();
+    for line in script.lines() {
+        driver.run_line(line).await;
+    }
+    driver.harness.chain = None;
+    let _ = std::panic::take_hook();
+    match std::env::var("VERIF_OUT") {
+        Ok(output_path) => {
+            std::fs::write(&output_path, &driver.harness.out)
+                .expect("VERIF_OUT should be writable");
+        }
+        Err(_) => print!("{}", driver.harness.out),
+    }
+}
